@@ -18,6 +18,10 @@ type dataBackupHelper struct {
 }
 
 func newDataBackupHelper(dataFolder string, keep int) *dataBackupHelper {
+	// Dir() and Base() of a path with a trailing separator name the folder
+	// itself and its last element: the backup would be looked for inside
+	// the data folder.
+	dataFolder = filepath.Clean(dataFolder)
 	return &dataBackupHelper{
 		baseDir:    filepath.Dir(dataFolder),
 		folderName: filepath.Base(dataFolder),
